@@ -126,7 +126,11 @@ class CloneAbuseRule(BaseLintRule):
         """
         if self._config_override is not None:
             return self._config_override
-        return load_linter_config(context, "clone-abuse", CloneAbuseConfig)
+        # The config loader normalises top-level section names to underscores;
+        # keep the hyphenated key for directly injected metadata.
+        metadata = getattr(context, "metadata", None) or {}
+        config_key = "clone_abuse" if "clone_abuse" in metadata else "clone-abuse"
+        return load_linter_config(context, config_key, CloneAbuseConfig)
 
     def _build_violations(
         self,
